@@ -398,6 +398,8 @@ def views_jobs(tier, seed):
 
 OBS10 = ['source', 'size', 'c1f0', 'c0f0', 'c1f1', 'c0f1', 'map1', 'map0']
 C10_QUICK = [
+    ('cached(concat[orig a;,empty,rawstr]) x 2 symbolic ops (pending close over an empty child, both fill paths)', CA(CC(O('a;'), RS(''), RS('!'))), dict(history_slots=2)),
+    ('cached(orig: second statement at column 512, a 3-digit VLQ border) after stream', CA(O('a' * 511 + ';b;')), dict(history=['c1f0'], what=['c1f0', 'map1', 'source'], loop_bound=1200)),
     ('cached(concat[orig a;/?,rawstr1]) x 2 symbolic ops', CA(CC(O('a;\n?'), RS('!'))), dict(history_slots=2)),
     ('cached(orig sym2) x 2 symbolic ops', CA(O('??')), dict(history_slots=2)),
     ('cached(replace(orig ab;c,[sym X named])) after stream + 1 symbolic op', CA(RP(O('ab;c'), (Q, Q, 'X', 'n'))), dict(history=['c1f0'], history_slots=1)),
